@@ -108,7 +108,8 @@ CLAIMED = {
     'C08': (T + ': grammar spec <-> _abbreviate, dict semantics',
             'Machine-checked proof that, in the model of capabilities.py, lookup of an advertised URI succeeds, shorthand lookup succeeds iff the '
             'grammar of RFC capability/base URNs says so (both URN forms), results are the right capability, parameters are exactly the '
-            'well-formed k=v pairs and the only failure is KeyError - for all URI lists and keys. The model is compared with the real '
+            'well-formed k=v pairs and the only failure is KeyError - for all URI lists and keys; and for ALL histories of add / remove the object equals the one '
+            'freshly built from the ordered set of URIs added and not removed (no memory of earlier lookups or contents). The model is compared with the real '
             'Capabilities class on thousands of grammar-generated cases per run; an independent regex spec is evaluated on the implementation.',
             NOTE + 'Python str.split/startswith as modelled.', 'DESIGN.md 5/C08'),
     'C10': (T + ': tree induction for the reply transforms; composition of framing and dispatch theorems',
